@@ -547,6 +547,13 @@ def run(ctx: Ctx):
                 ex1.append([{"ev": "perturb", "c": 0, "procs": 0, "seed": 12345},
                             {"ev": "call", "c": c, "procs": procs, "seed": 0}])
     behs += [{"events": p, "pre": []} for p in ex1]
+    # "when repeated": every call twice in one process with the generators perturbed in between (a result cached or a
+    # reseed skipped on the second call shows here); instances of Pipeline behaviours call ; perturb ; call
+    for c in range(1, len(M) + 1):
+        procs2 = 2 if M[c - 1]["parallel"] else 1
+        behs.append({"events": [{"ev": "call", "c": c, "procs": 1, "seed": 0},
+                                {"ev": "perturb", "c": 0, "procs": 0, "seed": 7},
+                                {"ev": "call", "c": c, "procs": procs2, "seed": 0}], "pre": []})
     # (c) file histories: exhaustive over pre-existing subsets and 1..5 writes
     for pre in ([], [0], [0, 1], [0, 2], [1], [0, 1, 2], [2]):
         for k in range(1, 6):
